@@ -656,15 +656,11 @@ fn read_back_std(cx: &mut Ctx, items: &[Item], data: &[u8], r: &Plan, tail_len: 
     let mut rest = Vec::new();
     let mut results = Vec::new();
     {
-        let mut run = |rd: &mut dyn Read| {
-            struct Dyn<'a>(&'a mut dyn Read);
-            impl Read for Dyn<'_> {
-                fn read(&mut self, b: &mut [u8]) -> std::io::Result<usize> {
-                    self.0.read(b)
-                }
-            }
-            for _ in items {
-                results.push(CompactCalendar::deserialize(&mut *rd));
+        // generic, not `dyn Read`: what std specialises per reader type (`size_hint`, `read_buf`, ...) must stay
+        // visible to the code under test
+        fn drive<R: Read>(mut rd: R, n: usize, results: &mut Vec<std::io::Result<CompactCalendar>>, rest: &mut Vec<u8>) {
+            for _ in 0..n {
+                results.push(CompactCalendar::deserialize(&mut rd));
             }
             loop {
                 let mut b = [0u8; 64];
@@ -675,31 +671,35 @@ fn read_back_std(cx: &mut Ctx, items: &[Item], data: &[u8], r: &Plan, tail_len: 
                     Err(_) => break,
                 }
             }
-            let _ = Dyn(rd);
-        };
+        }
+        macro_rules! run {
+            ($rd:expr) => {
+                drive($rd, items.len(), &mut results, &mut rest)
+            };
+        }
         match r.flavour {
             1 => {
                 cx.probes.hit("read_through_std_chain");
-                run(&mut (&mut first).chain(&mut second))
+                run!((&mut first).chain(&mut second))
             }
             2 => {
                 cx.probes.hit("read_through_std_bufreader");
-                run(&mut std::io::BufReader::with_capacity(cut + 1, &mut first))
+                run!(std::io::BufReader::with_capacity(cut + 1, &mut first))
             }
             3 => {
                 cx.probes.hit("read_through_std_take");
-                run(&mut (&mut first).take(data.len() as u64))
+                run!((&mut first).take(data.len() as u64))
             }
             // in-memory std readers only (they answer `size_hint`, `read_vectored`, `read_exact` with their own
             // specialisations); the fault is the short read every one of them makes at its seam
             4 => {
                 cx.probes.hit("read_through_chain_of_slices");
-                run(&mut (&data[..cut]).chain(&data[cut..]))
+                run!((&data[..cut]).chain(&data[cut..]))
             }
             5 => {
                 cx.probes.hit("read_through_chain_of_bufreaders");
                 let third = cut + (data.len() - cut) / 2;
-                run(&mut std::io::BufReader::with_capacity(cut + 1, &data[..cut]).chain(std::io::Cursor::new(&data[cut..third])).chain(&data[third..]))
+                run!(std::io::BufReader::with_capacity(cut + 1, &data[..cut]).chain(std::io::Cursor::new(&data[cut..third])).chain(&data[third..]))
             }
             6 => {
                 // a ring buffer whose content wraps at `cut`: `read` only ever returns the first of its two slices
@@ -715,12 +715,12 @@ fn read_back_std(cx: &mut Ctx, items: &[Item], data: &[u8], r: &Plan, tail_len: 
                     ring.pop_front();
                 }
                 ring.extend(data.iter().copied());
-                run(&mut ring)
+                run!(&mut ring)
             }
             _ => {
                 cx.probes.hit("read_through_boxed_chain");
-                let mut b: Box<dyn Read + '_> = Box::new((&data[..cut]).chain(&data[cut..]));
-                run(&mut b)
+                let b: Box<std::io::Chain<&[u8], &[u8]>> = Box::new((&data[..cut]).chain(&data[cut..]));
+                run!(b)
             }
         }
     }
